@@ -446,6 +446,16 @@ def check_caller(rep, repo):
         rep.inconclusive('C06.R4', wn.where, 'with_none helper is inside the interpreted fragment', got=str(u))
         return
     ents = []
+    from ..shapes import placeholder_extend
+    pe = placeholder_extend(rv2)
+    if pe is not None:
+        # one extend per row: the row's selected pair(s), or [None] when there is none
+        rows, chosen = pe
+        ok_rows = len(rows) == 1 and rows[0][0][3] == A(lp.MODEL, 'pairs') and rows[0][1] == TRUE
+        ok_sel = len(chosen[1]) == 1 and chosen[1][0][0][3] == rows[0][0] and chosen[2] == chosen[1][0][0] and contains(chosen[1][0][1], lambda x: x[0] == 'attr' and x[2] == 'varValue')
+        rep.check(ok_rows and ok_sel, 'C06.R4', wn.where, 'the per-student list has one entry per row of pairs: the pair whose variable is set, or None when no variable of the row is set',
+                  got=show(rv2)[:160], want='per row: selected pair(s) by varValue, else None', construct='with_none schema')
+        return
     if rv2[0] == 'accum':
         ents = list(rv2[2])
     elif rv2[0] in ('cat', 'comp'):
